@@ -371,21 +371,20 @@ class YP(object):
             args = []
 
         try:
-            remaining_clauses = self._find_predicates(name, len(args))[:]
+            clauses = self._find_predicates(name, len(args))
         except YPException:
             # no facts for this predicate: nothing to retract
             return
-        i = 0
-        while i < len(remaining_clauses):
-            clause = remaining_clauses[i]
-            match = False
+        # Logical update view: try the facts that exist now, in order. While
+        # this generator is suspended other goals may change the predicate,
+        # so look at the store again before removing a fact.
+        for clause in clauses:
             for cut in clause.match(args):
-                match = True
-                del remaining_clauses[i]
-                self._update_predicate(self.atom(name), len(args), remaining_clauses)
-                yield False
-            if not match:
-                i += 1
+                current = self._predicates_store.get((name, len(args)), [])
+                if any(c is clause for c in current):
+                    self._update_predicate(self.atom(name), len(args),
+                            [c for c in current if c is not clause])
+                    yield False
 
     def retractall(self, term):
         '''retractall(Term) removes all dynamic facts matching Term, without backtracking over identical clauses.'''
@@ -532,10 +531,11 @@ class YP(object):
         except YPException as e:
             clauses = []
         answer = Answer([get_value(v) for v in values])
+        # never change a list in place: a suspended goal may be iterating over it
         if append:
-            clauses.append(answer)
+            clauses = clauses + [answer]
         else:
-            clauses.insert(0, answer)
+            clauses = [answer] + clauses
         self._update_predicate(name, len(values), clauses)
 
     def query(self, name, args):
